@@ -98,6 +98,25 @@ pub fn run(cfg: &TrkCfg, bs: &[Batch], discipline: usize) -> RunOut {
                 out.push(h.join().unwrap());
             }
         }
+        // the same thread retrieves result by result and lists the idle tracks of every scene after each one - a
+        // second public entry point used while the other scenes of the batch may still be voted
+        3 => {
+            let scenes: BTreeSet<u64> = bs.iter().flat_map(|b| b.iter().map(|x| x.0)).collect();
+            for b in bs {
+                let res = t.submit_batch(b);
+                let mut got = vec![];
+                for _ in 0..res.batch_size() {
+                    let (s, v) = res.get();
+                    got.push((s, v.iter().map(Rec::from).collect()));
+                    for sc in &scenes {
+                        let idle = t.idle(*sc);
+                        assert!(idle.iter().all(|r| r.scene == *sc), "idle_tracks({sc}) listed a track of another scene: {idle:?}");
+                    }
+                }
+                assert!(!res.ready(), "the result handle still reports ready() after batch_size() results were retrieved");
+                out.push(got);
+            }
+        }
         // violates the proviso: the next batch is submitted before anything was retrieved, same thread
         _ => {
             let mut results = vec![];
@@ -309,7 +328,7 @@ pub fn replay_batch(file: &serde_json::Value, prop: &str, judge: &dyn Fn(&RunOut
 
 pub fn run_check(tier: Tier) -> Report {
     let rep = Report::new("C06", tier);
-    rep.set_rule("BatchSort and BatchVisualSort x (distance shards, voting shards) in {(1,1),(1,2),(2,2)} (thorough: (1,3)) x batch sequences (2-3 batches over 2-3 scenes with 1-2 detections per scene, a scene absent from one batch, also with max idle 1 and expired tracks collected at every submission; batches of 6 / 9 scenes for 1 / 2 voting threads; for BatchVisualSort also own-area thresholds with scenes of different own-area shares in one batch) x consumer discipline {same thread retrieves before the next submission; a second thread retrieves while the caller submits at once}, then drop; plus a fine tier (every synchronisation operation a decision point, 2 voting threads; two batches of two scenes retrieved before the next submission, deviation bound iterated to 2 quick / 4 thorough; three pipelined batches retrieved by consumer threads, bound 1 quick / 3 thorough): every interleaving of the predict loop, store workers, voting threads and consumer within the bound (window = whole run; bound = preemptions for the 1x1 / retrieve-then-submit configuration, otherwise departures from the deterministic default schedule i.e. delay bounding; bounds iterated 0,1,2,.. and the largest completed one reported per scenario); oracle: one result per submitted scene, one record per detection in order, per scene equal to the simple tracker up to an id bijection, no deadlock / step-cap. A third discipline that violates the proviso (submit a two-scene batch, then the next, before retrieving) must deadlock: built-in detection demo. states = executions.");
+    rep.set_rule("BatchSort and BatchVisualSort x (distance shards, voting shards) in {(1,1),(1,2),(2,2)} (thorough: (1,3)) x batch sequences (2-3 batches over 2-3 scenes with 1-2 detections per scene, a scene absent from one batch, also with max idle 1 and expired tracks collected at every submission; batches of 6 / 9 scenes for 1 / 2 voting threads; for BatchVisualSort also own-area thresholds with scenes of different own-area shares in one batch) x consumer discipline {same thread retrieves before the next submission; a second thread retrieves while the caller submits at once; the same thread retrieves result by result and lists the idle tracks of every scene in between}, then drop; plus a fine tier (every synchronisation operation a decision point, 2 voting threads; two batches of two scenes retrieved before the next submission, deviation bound iterated to 2 quick / 4 thorough; three pipelined batches retrieved by consumer threads, bound 1 quick / 3 thorough): every interleaving of the predict loop, store workers, voting threads and consumer within the bound (window = whole run; bound = preemptions for the 1x1 / retrieve-then-submit configuration, otherwise departures from the deterministic default schedule i.e. delay bounding; bounds iterated 0,1,2,.. and the largest completed one reported per scenario); oracle: one result per submitted scene, one record per detection in order, per scene equal to the simple tracker up to an id bijection, no deadlock / step-cap. A third discipline that violates the proviso (submit a two-scene batch, then the next, before retrieving) must deadlock: built-in detection demo. states = executions.");
     rep.assume("macro-step granularity (named points: worker dequeues a command, distances queued, scene dispatched, vote begin / before each store write / before the result is sent); preemptions inside lock-protected sections are not explored");
     let mut scen = BTreeMap::new();
     let mut total = 0u64;
@@ -338,6 +357,10 @@ pub fn run_check(tier: Tier) -> Report {
     for kind in [Kind::BatchSort, Kind::BatchVisualSort] {
         scenarios.push((kind, 1, 1, 6, 0, Pos::Iou(0.3)));
         scenarios.push((kind, 1, 2, 7, 0, Pos::Iou(0.3)));
+    }
+    // idle tracks listed between the retrievals of one batch's results
+    for kind in [Kind::BatchSort, Kind::BatchVisualSort] {
+        scenarios.push((kind, 1, 2, 1, 3, Pos::Iou(0.3)));
     }
     // expired tracks collected at every submission while the previous batch may still be voting
     for kind in [Kind::BatchSort, Kind::BatchVisualSort] {
@@ -420,7 +443,7 @@ pub fn run_check(tier: Tier) -> Report {
         let mut completed: Option<usize> = None;
         let mut per_bound = vec![];
         let outcomes: Mutex<BTreeSet<u64>> = Mutex::new(BTreeSet::new());
-        let scj = json!({"config":cfg.json(),"batches_variant":variant,"discipline":(if discipline == 0 { "retrieve-then-submit" } else { "consumer-thread" })});
+        let scj = json!({"config":cfg.json(),"batches_variant":variant,"discipline":(match discipline { 0 => "retrieve-then-submit", 3 => "retrieve-one-list-idle-tracks", _ => "consumer-thread" })});
         for bound in 0..=max_bound {
             if std::time::Instant::now() >= slice_end {
                 break;
